@@ -98,6 +98,7 @@ func TestC42(t *testing.T) {
 	rng := r.Rng("hist")
 	sigs := map[string]struct{}{}
 	var checked, illegal, unknown int
+	lostCallbacks := 0
 
 	for h := 0; h < nHist; h++ {
 		flavour := "Future"
@@ -183,7 +184,7 @@ func TestC42(t *testing.T) {
 			}(i)
 		}
 		close(start)
-		okRet, _ := lib.Returns(20*time.Second, func() { wg.Wait(); cbDone.Wait() })
+		okRet, _ := lib.Returns(20*time.Second, func() { wg.Wait() })
 		r.Eval(1)
 		if !okRet {
 			dump := lib.Goroutines()
@@ -192,6 +193,32 @@ func TestC42(t *testing.T) {
 			} else {
 				r.Inconclusive(fmt.Sprintf("history %d did not quiesce within the watchdog", h))
 			}
+			continue
+		}
+		// Every Complete and ThenAccept call has returned and the history contains a completion.
+		// For the synchronous flavour that is a logical fact, not a deadline: callbacks run
+		// inside Complete (registered before) or inside ThenAccept (registered after), so each
+		// of them has run by now. One that has not will never run.
+		if flavour != "Chan" {
+			lost := 0
+			mu.Lock()
+			for _, rc := range recs {
+				if rc.calls.Load() == 0 {
+					lost++
+				}
+			}
+			mu.Unlock()
+			if lost > 0 {
+				lostCallbacks += lost
+				r.Violation("callback-never-ran-although-future-completed", fmt.Sprintf("%d callback(s) had not run when every Complete/ThenAccept call of the history had returned", lost), map[string]any{"scripts": scripts, "history": h})
+				if lostCallbacks > 3 {
+					break
+				}
+				continue
+			}
+		}
+		if ok2, _ := lib.Returns(20*time.Second, cbDone.Wait); !ok2 {
+			r.Inconclusive(fmt.Sprintf("history %d: an asynchronous callback did not run within the watchdog", h))
 			continue
 		}
 		// Chan callbacks run on their own goroutines; give a duplicate invocation a chance to show.
@@ -257,6 +284,82 @@ func TestC42(t *testing.T) {
 	r.Set("porcupine_illegal", illegal)
 	r.Set("porcupine_unknown", unknown)
 	r.Set("distinct_interleaving_signatures", len(sigs))
+
+	// ---- registrations racing one completion, released by a spin barrier -----------------
+	// The window between "not completed yet" and "callback appended" of a registration is a few
+	// instructions wide; goroutines woken through a channel rarely meet in it. Here 2-8
+	// registrants and one completer spin on a flag and start within nanoseconds of each other.
+	// Every callback must have run exactly once, with the completed value, once all calls returned.
+	srng := r.Rng("spin-registration")
+	nSpin := r.N(12000, 400000)
+	var spinLost, spinTwice int
+	overlapSeen := 0
+	for c := 0; c < nSpin; c++ {
+		f := future.New[int]()
+		k := 2 + srng.Intn(7)
+		runs := make([]atomic.Int32, k)
+		vals := make([]atomic.Int64, k)
+		var ready atomic.Int32
+		var goFlag atomic.Bool
+		var regBefore atomic.Int32 // registrations that returned before Complete returned
+		var completeDone atomic.Bool
+		var wg sync.WaitGroup
+		for i := 0; i < k; i++ {
+			wg.Add(1)
+			go func(i int) {
+				defer wg.Done()
+				ready.Add(1)
+				for !goFlag.Load() {
+				}
+				f.ThenAccept(func(v int) { runs[i].Add(1); vals[i].Store(int64(v)) })
+				if !completeDone.Load() {
+					regBefore.Add(1)
+				}
+			}(i)
+		}
+		wg.Add(1)
+		go func() {
+			defer wg.Done()
+			ready.Add(1)
+			for !goFlag.Load() {
+			}
+			f.Complete(c + 1)
+			completeDone.Store(true)
+		}()
+		for int(ready.Load()) < k+1 {
+			runtime.Gosched()
+		}
+		goFlag.Store(true)
+		okRet, _ := lib.Returns(20*time.Second, wg.Wait)
+		r.Eval(1)
+		if !okRet {
+			r.Inconclusive("spin-registration round did not return within the watchdog")
+			continue
+		}
+		if rb := int(regBefore.Load()); rb > 0 && rb < k {
+			overlapSeen++
+		}
+		for i := 0; i < k; i++ {
+			switch n := runs[i].Load(); {
+			case n == 0:
+				spinLost++
+				r.Violation("callback-never-ran-although-future-completed", fmt.Sprintf("a callback registered concurrently with Complete ran 0 times after both calls had returned (round %d, %d registrants)", c, k), map[string]any{"round": c, "registrants": k})
+			case n > 1:
+				spinTwice++
+				r.Violation("callback-ran-more-than-once", fmt.Sprintf("a callback ran %d times (round %d)", n, c), map[string]any{"round": c, "registrants": k})
+			case vals[i].Load() != int64(c+1):
+				r.Violation("callback-saw-other-value-than-the-completion", fmt.Sprintf("callback saw %d, the future was completed with %d", vals[i].Load(), c+1), map[string]any{"round": c})
+			}
+		}
+		if spinLost+spinTwice > 3 {
+			break
+		}
+		if c%64 == 0 {
+			r.Distinct(fmt.Sprintf("spin k=%d round=%d", k, c))
+		}
+	}
+	r.Set("spin_barrier_registration_rounds", nSpin)
+	r.Set("spin_barrier_rounds_where_registrations_fell_on_both_sides_of_the_completion", overlapSeen)
 
 	// ---- a composed future that is completed from outside before its source ---------------
 	// (a timeout / cancel path completes the result of ThenCompose directly). The composer is a
